@@ -246,6 +246,16 @@ class CFG:
             return True
         return b not in self.reach([0], blocked_edges=[edge])
 
+    def set_dominates(self, blocks, target, entry=0):
+        """Every path entry -> target passes through one of `blocks` (dominance by a *set*: in a variant-threaded
+        view a statement may exist in several copies, none of which dominates alone)."""
+        blocks = set(blocks)
+        if target in blocks:
+            return True
+        if not blocks:
+            return target not in self.reachable()
+        return target not in self.reach([entry], blocked=blocks)
+
     def passes_through(self, mid_blocks, src, dsts, barriers=()):
         """Every path src -> any of dsts passes through one of mid_blocks (paths are cut at `barriers`, e.g. the
         head of a per-operation loop, so that a later iteration is not mistaken for this one)."""
